@@ -349,7 +349,7 @@ def ob_native():
         NtE = [int(rr.randint(1, 3))] if ext else []
 
         def split(total_like=None):
-            if total_like is not None and rr.rand() < 0.5:
+            if total_like is not None and (not (rr.rand() >= 0.5)):
                 p = rr.permutation(len(total_like))
                 return np.array(total_like)[p]
             return rr.randint(1, 4, size=K)
@@ -390,19 +390,19 @@ def ob_native():
                 for k in range(K):
                     for l in range(Kt):
                         big[cumr[k]:cumr[k + 1], cumt[l]:cumt[l + 1]] *= np.sqrt(g["pl"][k, l])
-            if np.abs(o.big_H - big).max() > 1e-12:
+            if (not (np.abs(o.big_H - big).max() <= 1e-12)):
                 return {"big_H stale/wrong": float(np.abs(o.big_H - big).max())}
             H = o.H
             for k in range(K):
-                if np.abs(o.get_Hk(k) - big[cumr[k]:cumr[k + 1]]).max() > 1e-12:
+                if (not (np.abs(o.get_Hk(k) - big[cumr[k]:cumr[k + 1]]).max() <= 1e-12)):
                     return {"get_Hk": k}
                 for l in range(Kt):
                     blk = big[cumr[k]:cumr[k + 1], cumt[l]:cumt[l + 1]]
-                    if H[k, l].shape != blk.shape or np.abs(H[k, l] - blk).max() > 1e-12:
+                    if H[k, l].shape != blk.shape or (not (np.abs(H[k, l] - blk).max() <= 1e-12)):
                         return {"H[k,l] != block of big_H": [k, l]}
-                    if l < K and np.abs(o.get_Hkl(k, l) - blk).max() > 1e-12:
+                    if (not (l >= K)) and (not (np.abs(o.get_Hkl(k, l) - blk).max() <= 1e-12)):
                         return {"get_Hkl": [k, l]}
-            if ext and np.abs(o.big_H_no_ext_int - big[:, :cumt[K]]).max() > 1e-12:
+            if ext and (not (np.abs(o.big_H_no_ext_int - big[:, :cumt[K]]).max() <= 1e-12)):
                 return {"big_H_no_ext_int": True}
             return None
 
@@ -430,7 +430,7 @@ def ob_native():
                 o.set_pathloss()
                 g["pl"] = None
             elif w == 5:
-                g["nv"] = None if rr.rand() < 0.3 else float(rr.rand())
+                g["nv"] = None if (not (rr.rand() >= 0.3)) else float(rr.rand())
                 o.noise_var = g["nv"]
             elif w == 6:
                 g["W"] = [rr.randn(int(n), 1) + 1j * rr.randn(int(n), 1) for n in g["Nr"]]
@@ -442,7 +442,7 @@ def ob_native():
             if bad:
                 bad["step"] = step
                 return bad
-            if rr.rand() < 0.6:
+            if (not (rr.rand() >= 0.6)):
                 data = np.empty(K, dtype=object)
                 for k in range(K):
                     data[k] = rr.randn(int(g["Nt"][k]), 3) + 1j * rr.randn(int(g["Nt"][k]), 3)
@@ -469,7 +469,7 @@ def ob_native():
                 # the statement: "split per receiver by its antenna count" (rows cumNr[k]:cumNr[k+1] of the filtered signal)
                 for k in range(K):
                     want = y[cumr[k]:cumr[k + 1]]
-                    if out[k].shape != want.shape or (want.size and np.abs(out[k] - want).max() > 1e-10):
+                    if out[k].shape != want.shape or (want.size and (not (np.abs(out[k] - want).max() <= 1e-10))):
                         return {"receive equation / split": k, "step": step}
         return None
     return bounded(gen(), check)
